@@ -33,29 +33,12 @@ fn no_format(_args: core::fmt::Arguments<'_>) -> alloc::string::String {
     alloc::string::String::new()
 }
 
-// @harness props=C20,C03,C08 tier=quick timeout=2400 mem=20 stubbing=1 replay=scenario:close flavor=nodebug
-// @desc Database drop against a write transaction, both drop orders, with/without a live writer, with/without a latched storage failure, with/without needs_repair: after both handles are gone the backend's close() has run EXACTLY once and nothing touched the backend afterwards; while the write transaction is still live after the Database was dropped the backend is NOT yet closed; the shutdown commit is attempted at most once and never when needs_repair is set
-// @functions Drop for Database, Drop for TransactionGuard, close_database, TransactionTracker::{defer_close_if_write_transaction_live,end_write_transaction,start_write_transaction}, TransactionalMemory::{close,flush_shutdown_header,needs_repair,storage_failure}, PagedCachedFile::{close,check_io_errors}, CheckedBackend::{close,check_failure}
-// @bound one Database handle, at most one write transaction guard; all four booleans and the drop order arbitrary
-// @stubs ensure_allocator_state_table_and_trim -> no-op returning Ok/Err; TransactionalMemory::write_header, PagedCachedFile::{flush,resize,sync_file} -> event log; Condvar::{wait,notify_one}; crate::panicking -> false; xxh3_checksum -> uninterpreted; alloc::fmt::format -> empty
-#[kani::proof]
-#[kani::unwind(22)]
-#[kani::stub(ensure_allocator_state_table_and_trim, stub_ensure)]
-#[kani::stub(TransactionalMemory::write_header, crate::tree_store::page_store::page_manager::verif_kani::stub_write_header)]
-#[kani::stub(crate::tree_store::page_store::cached_file::PagedCachedFile::flush, crate::tree_store::page_store::page_manager::verif_kani::stub_flush)]
-#[kani::stub(std::sync::Condvar::wait, stub_wait)]
-#[kani::stub(std::sync::Condvar::notify_one, stub_notify_one)]
-#[kani::stub(crate::panicking, not_panicking)]
-#[kani::stub(crate::tree_store::page_store::page_manager::xxh3_checksum, crate::tree_store::page_store::header::verif_kani::uf_checksum)]
-#[kani::stub(alloc::fmt::format, no_format)]
-fn c20_database_drop_closes_once() {
+fn drop_case(writer_live: bool, db_first: bool) {
     let mem = Arc::new(crate::tree_store::verif_literal_mem());
     crate::tree_store::verif_set_cur_mem(&mem);
     let tracker = Arc::new(TransactionTracker::new(TransactionId::new(3)));
-    let writer_live: bool = kani::any();
     let failure: bool = kani::any();
     let needs_repair: bool = kani::any();
-    let db_first: bool = kani::any();
     let guard = if writer_live {
         Some(TransactionGuard::new_write(tracker.start_write_transaction(), tracker.clone()))
     } else {
@@ -89,12 +72,37 @@ fn c20_database_drop_closes_once() {
     if needs_repair {
         assert!(unsafe { ENSURE_CALLS } == 0, "no allocator state is saved when it needs repair");
     }
-    kani::cover!(writer_live && db_first && failure, "Database dropped before a failed live write transaction");
-    kani::cover!(writer_live && !db_first, "write transaction ended first");
+    kani::cover!(failure, "with a latched storage failure");
+    kani::cover!(!failure && !needs_repair, "healthy shutdown");
     core::mem::forget(mem);
     core::mem::forget(tracker);
 }
 
+macro_rules! drop_harness {
+    ($name:ident, $live:expr, $first:expr) => {
+        #[kani::proof]
+        #[kani::unwind(22)]
+        #[kani::stub(ensure_allocator_state_table_and_trim, stub_ensure)]
+        #[kani::stub(TransactionalMemory::write_header, crate::tree_store::page_store::page_manager::verif_kani::stub_write_header)]
+        #[kani::stub(crate::tree_store::page_store::cached_file::PagedCachedFile::flush, crate::tree_store::page_store::page_manager::verif_kani::stub_flush)]
+        #[kani::stub(std::sync::Condvar::wait, stub_wait)]
+        #[kani::stub(std::sync::Condvar::notify_one, stub_notify_one)]
+        #[kani::stub(crate::panicking, not_panicking)]
+        #[kani::stub(alloc::fmt::format, no_format)]
+        fn $name() {
+            drop_case($live, $first);
+        }
+    };
+}
+
+// @harness props=C20,C03,C08 tier=thorough timeout=7200 mem=40 stubbing=1 replay=scenario:close flavor=nodebug
+// @desc (attempted: the single harness over all four booleans did not close in 2400 s) Database drop against a write transaction, in the named drop order (db_first / guard_first) with the named writer state, with/without a latched storage failure, with/without needs_repair: after both handles are gone the backend's close() has run EXACTLY once and nothing touched the backend afterwards; while the write transaction is still live after the Database was dropped the backend is NOT yet closed; the shutdown commit is attempted at most once and never when needs_repair is set
+// @functions Drop for Database, Drop for TransactionGuard, close_database, TransactionTracker::{defer_close_if_write_transaction_live,end_write_transaction,start_write_transaction}, TransactionalMemory::{close,flush_shutdown_header,needs_repair,storage_failure}, PagedCachedFile::{close,check_io_errors}, CheckedBackend::{close,check_failure}
+// @bound one Database handle, at most one write transaction guard; drop order and writer presence fixed per harness, failure and needs_repair arbitrary
+// @stubs ensure_allocator_state_table_and_trim -> no-op returning Ok/Err; TransactionalMemory::write_header, PagedCachedFile::flush -> event log; Condvar::{wait,notify_one}; crate::panicking -> false; alloc::fmt::format -> empty
+drop_harness!(c20_database_drop_live_db_first, true, true);
+drop_harness!(c20_database_drop_live_guard_first, true, false);
+drop_harness!(c20_database_drop_no_writer, false, true);
 
 // ---- C01: the repair decision (Database::do_repair) ----------------------------------------------
 
